@@ -59,34 +59,86 @@ def matching_brace(s, i):
     return -1
 
 
+def tok(x):
+    """regex for C text x with arbitrary white space between tokens"""
+    parts = re.findall(r'[A-Za-z_0-9]+|"(?:\\.|[^"\\])*"|\S', x)
+    return r'\s*'.join(re.escape(p) for p in parts)
+
+
+def show_form_runs(s, show):
+    """form B of String_Show -> (pairs, plain_ok, quotes_ok) or None when the body is not of that form.
+    Same function as form A: each iteration writes the two-character escape of *v (v in ESC; the letter is
+    LET[index of its first occurrence]) or the next min(run, CAP) >= 1 plain characters verbatim ("%.*s" with a
+    byte count; a run holds no NUL and no member of ESC), and advances v by what it wrote."""
+    Q = r'print_to\s*\(\s*out\s*,\s*pos\s*,\s*"\\""\s*(?:,\s*self\s*)?\)'
+    pat = (r'\{\s*' + tok('struct String* s = self;') + r'\s*pos\s*=\s*' + Q + r'\s*;\s*(?:const\s+)?' + tok('char* v = s->val;')
+           + r'\s*' + tok('while (*v) { int off; size_t run = strcspn(v,') + r'\s*(?P<esc>\w+)\s*' + tok(');')
+           + r'\s*if\s*\(\s*run\s*(?:is|==)\s*0\s*\)\s*\{\s*' + tok('size_t which = strchr(') + r'\s*(?P=esc)\s*' + tok(', *v) -')
+           + r'\s*(?P=esc)\s*;\s*' + tok('off = format_to(out, pos, "\\\\%c",') + r'\s*(?P<let>\w+)\s*' + tok('[which]); run = 1; } else {')
+           + r'\s*(?:' + tok('if (run >') + r'\s*(?P<cap>\w+)\s*' + tok(') { run =') + r'\s*(?P=cap)\s*' + tok('; }') + r')?\s*'
+           + tok('off = format_to(out, pos, "%.*s", (int)run, v); }')
+           + r'\s*' + tok('if (off < 0) { throw(FormatError,') + r'\s*"(?:\\.|[^"\\])*"\s*' + tok('); }')
+           + r'\s*' + tok('pos += off; v += run; }') + r'\s*return\s+' + Q + r'\s*;\s*\}')
+    m = re.fullmatch(pat, show.strip(), re.S)
+    if not m:
+        return None
+
+    def strconst(name):
+        mm = re.search(r'static\s+const\s+char\s+%s\s*\[\s*\]\s*=\s*"((?:\\.|[^"\\])*)"\s*;' % re.escape(name), s)
+        return c_unescape(mm.group(1)) if mm else None
+    esc, let = strconst(m.group('esc')), strconst(m.group('let'))
+    cap_ok = True
+    if m.group('cap'):
+        c = m.group('cap')
+        if not c.isdigit():
+            mm = re.search(r'#\s*define\s+%s\s+\(?\s*(\d+)\s*\)?' % re.escape(c), s)
+            c = mm.group(1) if mm else ''
+        cap_ok = c.isdigit() and int(c) >= 1
+    pairs = None
+    if esc and let and 0 not in esc and len(let) >= len(esc) and 0 not in let[:len(esc)]:
+        pairs = [(e, l) for e, l in zip(esc, let)]
+    return pairs, cap_ok, True
+
+
 def generate(repo, emit, src, func_body):
     s = src('src/String.c')
     show = func_body(s, r'static\s+int\s+String_Show\s*\([^)]*\)\s*\{')
     look = func_body(s, r'static\s+int\s+String_Look\s*\([^)]*\)\s*\{')
 
-    # ---- String_Show: case '<c>': pos = print_to(out, pos, "<text>"); break;
+    # ---- String_Show, two accepted forms (design.d/C15.md "Benign changes"):
+    #  A  while (*v) { switch (*v) { case '<c>': pos = print_to(out, pos, "\\<l>"); break; ... default: "%c" } v++; }
+    #  B  runs of plain characters found with strcspn(v, ESC) and written with "%.*s", an escaped character
+    #     written with "\\%c" of LET[strchr(ESC, *v) - ESC]; ESC / LET are parallel string constants
     if not show:
         emit('rt_show_escapes', None); emit('rt_show_default_ok', None); emit('rt_show_quotes_ok', None)
     else:
-        pairs, ok = [], True
-        cases = re.findall(r"case\s+'((?:\\.|[^'\\]))'\s*:\s*(.*?)\bbreak\s*;", show, re.S)
-        ncase = len(re.findall(r'\bcase\b', show))
-        for ch, stmt in cases:
-            m = re.fullmatch(r'\s*pos\s*=\s*print_to\s*\(\s*out\s*,\s*pos\s*,\s*"((?:\\.|[^"\\])*)"\s*\)\s*;\s*', stmt)
-            c = c_unescape(ch)
-            t = c_unescape(m.group(1)) if m else None
-            if not c or len(c) != 1 or t is None or len(t) != 2 or t[0] != 92:
-                ok = False; break
-            pairs.append((c[0], t[1]))
-        if not ok or ncase != len(cases) or not cases:
-            emit('rt_show_escapes', None)
+        formb = show_form_runs(s, show)
+        if formb is not None:
+            pairs, plain_ok, quotes_ok = formb
+            emit('rt_show_escapes', table('rt_show_escapes', pairs) if pairs else None)
+            emit('rt_show_default_ok', boolean('rt_show_default_ok', True, 'source: plain runs written with "%.*s"') if plain_ok else None)
+            emit('rt_show_quotes_ok', boolean('rt_show_quotes_ok', True) if quotes_ok else None)
         else:
-            emit('rt_show_escapes', table('rt_show_escapes', pairs))
-        d = re.search(r'default\s*:\s*pos\s*=\s*print_to\s*\(\s*out\s*,\s*pos\s*,\s*"%c"\s*,\s*\$I\s*\(\s*\*v\s*\)\s*\)\s*;', show)
-        loop = re.search(r'while\s*\(\s*\*v\s*\)\s*\{\s*switch\s*\(\s*\*v\s*\)', show) and re.search(r'\}\s*v\+\+\s*;\s*\}', show)
-        emit('rt_show_default_ok', boolean('rt_show_default_ok', True) if (d and loop) else None)
-        q = re.findall(r'print_to\s*\(\s*out\s*,\s*pos\s*,\s*"\\""\s*,\s*self\s*\)', show)
-        emit('rt_show_quotes_ok', boolean('rt_show_quotes_ok', True) if len(q) == 2 else None)
+            pairs, ok = [], True
+            cases = re.findall(r"case\s+'((?:\\.|[^'\\]))'\s*:\s*(.*?)\bbreak\s*;", show, re.S)
+            ncase = len(re.findall(r'\bcase\b', show))
+            for ch, stmt in cases:
+                m = re.fullmatch(r'\s*pos\s*=\s*print_to\s*\(\s*out\s*,\s*pos\s*,\s*"((?:\\.|[^"\\])*)"\s*\)\s*;\s*', stmt)
+                c = c_unescape(ch)
+                t = c_unescape(m.group(1)) if m else None
+                if not c or len(c) != 1 or t is None or len(t) != 2 or t[0] != 92:
+                    ok = False; break
+                pairs.append((c[0], t[1]))
+            if not ok or ncase != len(cases) or not cases:
+                emit('rt_show_escapes', None)
+            else:
+                emit('rt_show_escapes', table('rt_show_escapes', pairs))
+            d = re.search(r'default\s*:\s*pos\s*=\s*print_to\s*\(\s*out\s*,\s*pos\s*,\s*"%c"\s*,\s*\$I\s*\(\s*\*v\s*\)\s*\)\s*;', show)
+            loop = re.search(r'while\s*\(\s*\*v\s*\)\s*\{\s*switch\s*\(\s*\*v\s*\)', show) and re.search(r'\}\s*v\+\+\s*;\s*\}', show)
+            emit('rt_show_default_ok', boolean('rt_show_default_ok', True) if (d and loop) else None)
+            # the quotes: print_to(out, pos, "\"") with or without the unused extra argument `self`
+            q = re.findall(r'print_to\s*\(\s*out\s*,\s*pos\s*,\s*"\\""\s*(?:,\s*self\s*)?\)', show)
+            emit('rt_show_quotes_ok', boolean('rt_show_quotes_ok', True) if len(q) == 2 else None)
 
     # ---- String_Look: case '<l>': String_Concat(self, $S("<c>")); break;   and the `continue`
     if not look:
